@@ -90,7 +90,10 @@ func NewQuery(sql string) (*Command, error) {
 	return query, nil
 }
 
+// QuoteString quotes str for the MySQL-dialect parser this library uses. That parser honours
+// backslash escapes inside string literals, so backslashes are doubled as well as quotes.
 func QuoteString(str string) string {
+	str = strings.ReplaceAll(str, `\`, `\\`)
 	return "'" + strings.ReplaceAll(str, "'", "''") + "'"
 }
 
